@@ -667,6 +667,7 @@ def check_keep(ctx, rep):
         if x.get("kind") == "ReturnStmt" and children(x):
             guards = ctx.guards(f, x) or []
             unk = any(expand_locals(ctx, f, gc)[0] == "bin" and gc[1] == "==" and gc[3] == UNKNOWN_O and val is True for gc, val, _a, _b in guards)
+            unk = unk or any(gc[0] == "bin" and gc[1] == "!=" and gc[3] == UNKNOWN_O and val is False for gc, val, _a, _b in guards)
             if unk:
                 kept = (x, canon(children(x)[0]))
     if kept is None:
